@@ -183,6 +183,72 @@ def main : IO Unit := do
   let stdin ← IO.getStdin
   forEachLine stdin fun l => IO.println (runLine l)
 
+/-! ### why the validator rejects (reporting only; the verdict itself is `progOk`) -/
+
+def kidsOf : Expr → List Expr
+  | .constr _ _ as => as | .tuple _ as => as | .array _ as => as
+  | .ite c t e => [c, t, e] | .while c b => [c, b] | .go e => [e] | .cget _ _ _ e => [e]
+  | .un _ _ e => [e] | .bin _ _ l r => [l, r] | .call _ f as => f :: as | .toDyn _ _ _ e => [e]
+  | .dynCall _ _ _ r as => r :: as | .proj _ _ e => [e]
+  | .matchE _ s arms d => s :: arms.map (fun | .mk _ b => b) ++ (match d with | some d => [d] | none => [])
+  | _ => []
+
+def ctorName : Expr → String
+  | .var .. => "var" | .prim .. => "prim" | .tag .. => "tag" | .constr .. => "constr" | .tuple .. => "tuple"
+  | .array .. => "array" | .closure .. => "closure" | .letE .. => "let" | .matchE .. => "match" | .ite .. => "if"
+  | .while .. => "while" | .go .. => "go" | .cget .. => "cget" | .un .. => "un" | .bin .. => "bin"
+  | .call .. => "call" | .toDyn .. => "todyn" | .dynCall .. => "dyncall" | .traitCall .. => "traitcall" | .proj .. => "proj"
+
+/-- the innermost rejected pair: node kind of the source and of the target expression -/
+partial def whyRejected (P P' : Prog) (Γ : SEnv) (S T : List String) (e e' : Expr) : Option String :=
+  match simE P P' Γ S T e e' with
+  | some _ => none
+  | none =>
+    let here := some s!"{ctorName e}->{ctorName e'}"
+    match e, e' with
+    | .letE x v b, .letE _ v' b' =>
+      match simE P P' Γ S T v v' with
+      | none => (whyRejected P P' Γ S T v v').orElse fun _ => here
+      | some s => (whyRejected P P' ((x, s) :: Γ) (x :: S) (x :: T) b b').orElse fun _ => here
+    | .closure _ ps body, .constr (.struct n) _ args' =>
+      match varNames? args' with
+      | some ys =>
+        match applyParts P' n ys with
+        | some (envp, ps', body') =>
+          if ps' == ps.map (·.1) then
+            (whyRejected P P' (ys.map (fun y => (y, Γ.get y))) (ps' ++ S) (ys ++ ps' ++ [envp]) body body').orElse fun _ =>
+              if fieldsOk P' n 0 (ys.map Γ.get) then some "closure:scope-condition" else some "closure:field-shape"
+          else some "closure:apply-params"
+        | none => some "closure:no-apply-function"
+      | none => some "closure:env-args-not-variables"
+    | .call _ (.var x _) _, .call _ (.var g _) _ =>
+      if x != g then some "call:rewritten-without-known-closure-type"
+      else
+        let ks := kidsOf e; let ks' := kidsOf e'
+        if ks.length != ks'.length then here
+        else ((ks.zip ks').findSome? fun p => whyRejected P P' Γ S T p.1 p.2).orElse fun _ => here
+    | _, _ =>
+      let ks := kidsOf e; let ks' := kidsOf e'
+      if ctorName e != ctorName e' || ks.length != ks'.length then here
+      else
+        match (ks.zip ks').findSome? fun p => whyRejected P P' Γ S T p.1 p.2 with
+        | some r => some r
+        | none =>
+          match e, e' with
+          | .constr (.struct _) _ _, _ => some "constr:field-shape"
+          | _, _ => here
+
+def whyRejectedProg (P P' : Prog) : String :=
+  match P.fns.findSome? (fun f =>
+    match P.findFn f.name, P'.findFn f.name with
+    | some f0, some f' =>
+      if fnOk P P' f0 f' then none else
+        let ps := f0.params.map (·.1)
+        some (f.name ++ ":" ++ ((whyRejected P P' [] ps ps f0.body f'.body).getD "return-shape-or-params"))
+    | _, _ => some (f.name ++ ":missing-counterpart")) with
+  | some r => r
+  | none => "impls-or-main"
+
 /-- `gomlmodel c08sim`: `id<TAB>(liftin …)<TAB>(liftout …)<TAB>(impls …)`; runs the `DirectFlow`
     validator on the REAL Mono program and the REAL lifted program -/
 def simLine (l : String) : String :=
@@ -196,9 +262,8 @@ def simLine (l : String) : String :=
         let tbl := rows.filterMap decImpl
         let P : Prog := { fns := fns, impls := tbl, structs := env.structs }
         let P' : Prog := { fns := fns', impls := tbl, structs := structs' }
-        match firstRejected P P' with
-        | none => s!"{id}\tACCEPT\t"
-        | some f => s!"{id}\tREJECT\t{f}"
+        if progOk P P' then s!"{id}\tACCEPT\t"
+        else s!"{id}\tREJECT\t{whyRejectedProg P P'}"
       | _, _, _ => s!"{id}\tdecode-error\t"
     | _, _, _ => s!"{id}\tparse-error\t"
   | _ => "?\tbad-line\t"
